@@ -306,3 +306,63 @@ def c05(ev, tier, seed):
     ev.exhaustive = False
     ev.assumptions = ["'k separate connections' is represented by the specification's reference semantics per request (RefReq / RefStream), "
                       "which every accepted trace event is compared against"]
+
+
+# ---------------------------------------------------------------------------- connection layer (C07 C08 C09 C11 C12 C14)
+CONN_INVARIANTS = "ReuseIff NoOwedReplyWhileWaiting NoWaitCycle OneHandlerPerRequest EpilogueShape Emit"
+
+
+def conn_cfg(B, menu, sizes="all", spurious=False, stops=False, faults=(), maxcuts=2, maxpend=1, fixa=True, fixb=True):
+    return ("SPECIFICATION Spec\nCONSTANTS\n  B = %d\n  ND = 1\n  FixA = %s\n  FixB = %s\n  Menu = %s\n  Sizes = \"%s\"\n  Spurious = %s\n"
+            "  Stops = %s\n  Faults = %s\n  MaxCuts = %d\n  MaxPend = %d\nINVARIANTS %s\nPROPERTIES NoHandlerAfterStop\nCHECK_DEADLOCK FALSE\n"
+            % (B, str(fixa).upper(), str(fixb).upper(), cl.tla_set(menu), sizes, str(spurious).upper(), str(stops).upper(), cl.tla_set(faults),
+               maxcuts, maxpend, CONN_INVARIANTS))
+
+
+def conn_model(ev, prop, seed, label, B, menu, timeout=2400, **kw):
+    name = "%s-conn-%s" % (prop, label)
+    known = ",".join(cl.load_known(prop).keys())
+    stats, h = cl.run_tlc_piped(name, "MC_Conn", conn_cfg(B, menu, **kw),
+                                ["conn-replay", "--prop", prop, "--seed", str(seed), "--threads", str(cl.NCPU), "--known", known],
+                                timeout=timeout, workers=max(4, cl.NCPU - 6), heap="16g")
+    ev.add_tlc("MC_Conn B=%d menu=%s %s" % (B, ",".join(menu), " ".join("%s=%s" % kv for kv in sorted(kw.items()))), stats)
+    ev.add_harness("behaviours replayed on Token::run (%s)" % label, h)
+
+
+CONN_ASSUME = ["the connection task is polled by a single-task executor: what happens between two transport calls is atomic",
+               "transport outcomes are scheduled by byte offset (cuts, spurious Pending, faults); at most MaxCuts partial transfers and MaxPend spurious Pending per behaviour, at every offset",
+               "the peer sends whole records and releases gated records only after it observed the awaited EndRequest / reply in the bytes written"]
+
+
+@check("C08")
+def c08(ev, tier, seed):
+    ev.rule = ("MC_Conn scenario family 'query': a GetValues / unknown-type query before the first request, in the same transport read as "
+               "the end of a request, between requests, right after Params, mid-stream while the handler is blocked reading, and behind "
+               "a request whose handler does not read; the peer withholds everything behind the query until it has observed the reply; "
+               "every way the transport splits reads and writes with up to 2 partial transfers at any offset (+ spurious Pending in "
+               "thorough). Invariants NoOwedReplyWhileWaiting and NoWaitCycle on the model; each behaviour is replayed on the real "
+               "Token::run and the predicate 'suspended on read with nothing released => replies owed for the bytes read have been "
+               "written' is evaluated on the real byte logs. The model with FixA/FixB = FALSE reproduces the two repaired defects "
+               "(see KNOWN_FINDINGS). Non-trivial: behaviours with more than two transport events.")
+    for B in (24, 32):
+        conn_model(ev, "C08", seed, "query-b%d" % B, B, ["query"], maxcuts=2 if tier == "quick" else 3)
+    if tier == "thorough":
+        conn_model(ev, "C08", seed, "query-pend", 32, ["query"], spurious=True, maxcuts=1, maxpend=2)
+    ev.exhaustive = False
+    ev.assumptions = CONN_ASSUME
+
+
+@check("C07")
+def c07(ev, tier, seed):
+    ev.rule = ("MC_Conn families 'basic' (roles 1/2/3, keep-conn both ways, handlers: echo with stdout+stderr, write-without-reading, "
+               "partial read via read / fill_buf+consume, filter with set_stream and writeable(), every ExitStatus variant, two requests "
+               "released one after the other), 'query' and 'abort'; B in {24, 32}; every split of reads/writes with up to 2 partial "
+               "transfers at any offset. Invariants OneHandlerPerRequest, EpilogueShape, ReuseIff; each behaviour replayed on the "
+               "real Token::run comparing handler invocations (request, environment, bytes read), the outbound byte stream and "
+               "whether run() returned. Non-trivial: more than two transport events.")
+    conn_model(ev, "C07", seed, "basic-b24", 24, ["basic", "abort", "query"])
+    if tier == "thorough":
+        conn_model(ev, "C07", seed, "basic-b32", 32, ["basic", "abort", "query"], maxcuts=3)
+        conn_model(ev, "C07", seed, "basic-pend", 24, ["basic"], spurious=True, maxcuts=1, maxpend=2)
+    ev.exhaustive = False
+    ev.assumptions = CONN_ASSUME + ["a write of more than 65535 bytes (several records) is not in the handler menu"]
